@@ -135,6 +135,10 @@ func session(out *hx.Writer, round int) {
 	grindIdent(func(id string) bool { return sharePrefix(id, x, 2+round%2) })
 	grindIdent(func(id string) bool { return sharePrefix(id, x, 1) })
 	grindIdent(func(id string) bool { return id[0] != x[0] })
+	// enough of them that a short prefix (and the empty one) matches more than a handful
+	for k := 0; k < 4; k++ {
+		grindIdent(func(id string) bool { return k%2 == 1 || id[0] == x[0] })
+	}
 	author := idents[0]
 
 	// bugs: [Y, shares 3 with Y, shares 1 with Y, unrelated]; bug 0 and 1 get comments with engineered operation ids
@@ -155,6 +159,9 @@ func session(out *hx.Writer, round int) {
 	grindBug(func(id string) bool { return sharePrefix(id, y, 3) })
 	grindBug(func(id string) bool { return sharePrefix(id, y, 1) })
 	grindBug(func(id string) bool { return id[0] != y[0] })
+	for k := 0; k < 5; k++ {
+		grindBug(func(id string) bool { return k%2 == 1 || id[0] == y[0] })
+	}
 	grindComment := func(b *bug.Bug, ok func(id string) bool) string {
 		for {
 			unix++
